@@ -388,6 +388,7 @@ func protect(msg *message.IKEMessage, key *security.IKESAKey, role string, rs *R
 // RxOpts describes the receive path of one delivery.
 type RxOpts struct {
 	PreHdr   bool   `json:"prehdr,omitempty"`   // receiver pre-parses the header from the same bytes
+	Hdr28    bool   `json:"hdr28,omitempty"`    // ... from the first 28 octets only (a receiver that peeks at the header before reading the rest)
 	Spare    int    `json:"spare,omitempty"`    // spare capacity behind the datagram (poisoned)
 	Scribble string `json:"scribble,omitempty"` // "", "complement", "random", "zero"
 	Hold     int    `json:"hold,omitempty"`
@@ -414,7 +415,7 @@ func rxBuffer(d []byte, spare int) []byte {
 // unprotect runs the receive path: optional ParseHeader on the same bytes, then
 // DecodeDecrypt. A datagram whose header does not parse is delivered with a nil
 // header.
-func unprotect(buf []byte, key *security.IKESAKey, role string, prehdr bool) (*message.IKEMessage, *callResult) {
+func unprotect(buf []byte, key *security.IKESAKey, role string, prehdr bool, hdr28 ...bool) (*message.IKEMessage, *callResult) {
 	res := &callResult{}
 	res.RandSt = simRand.begin(RandScript{Seed: 2})
 	var out *message.IKEMessage
@@ -424,7 +425,11 @@ func unprotect(buf []byte, key *security.IKESAKey, role string, prehdr bool) (*m
 		var h *message.IKEHeader
 		if prehdr {
 			var err error
-			h, err = message.ParseHeader(buf)
+			src := buf
+			if len(hdr28) > 0 && hdr28[0] && len(buf) >= 28 {
+				src = rxBuffer(buf[:28], 0)
+			}
+			h, err = message.ParseHeader(src)
 			if err != nil {
 				h = nil
 			}
